@@ -411,8 +411,7 @@ def run_shard(ctx):
                 ctx.count("step:" + s["k"])
             try:
                 run_case(case, ctx)
-                if ctx.evaluations % 307 == 0:
-                    ctx.sample(case)
+                ctx.maybe_sample(case, 307)
             except Abandon:
                 pass
         return t
